@@ -20,7 +20,7 @@ EFF_NAMES = {
     0: "b := false", 1: "when C: b := true", 2: "n += d", 3: "n -= d", 4: "n := c1", 5: "when C: n := c2",
     6: "forall y:T. p(y) := v", 7: "w(x) := x", 8: "n := n + d", 9: "when C: n += d", 10: "p(x) := true", 11: "u := c1",
     12: "b := true", 13: "forall y:T. when p(y): p(y) := false", 14: "when C: w(x) := o1", 15: "p(x) := false",
-    16: "when C: n -= d2", 17: "n := u", 18: "u -= d", 19: "u += d",
+    16: "when C: n -= d2", 17: "n := u", 18: "u -= d", 19: "u += d", 20: "forall y:T. when p(y): b := true",
 }
 INV_NAMES = {0: "always n <= c3", 1: "always b or p(o1)"}
 TRAJ_NAMES = {0: "sometime b", 1: "at-most-once p(o1)", 2: "sometime-before b p(o1)", 3: "sometime-after p(o1) b",
@@ -206,6 +206,9 @@ def _build(ctx, sk, env=None):
                 act.add_decrease_effect(em.FluentExp(u), em.Int(C("d")))
             elif i == 19:
                 act.add_increase_effect(em.FluentExp(u), em.Int(C("d")))
+            elif i == 20:
+                y = Variable("y", T, env)
+                act.add_effect(em.FluentExp(b), em.TRUE(), em.FluentExp(p, [em.VariableExp(y)]), forall=[y])
             else:
                 raise ValueError(i)
 
@@ -245,8 +248,8 @@ def _build(ctx, sk, env=None):
         conds |= {sk.get("effcond", 2)}
     if (set(sk.get("second_action") or [])) & {1, 5, 9, 14, 16}:
         conds |= {sk.get("effcond2", 0)}
-    uses_b = bool(conds & {0, 1, 6, 8}) or bool(effs & {0, 1, 12}) or 1 in sk.get("inv", []) or sk.get("fork_all")
-    uses_p = bool(conds & {2, 6, 7, 8, 11, 12}) or bool(effs & {6, 10, 13, 15}) or 1 in sk.get("inv", []) or sk.get("fork_all")
+    uses_b = bool(conds & {0, 1, 6, 8}) or bool(effs & {0, 1, 12, 20}) or 1 in sk.get("inv", []) or sk.get("fork_all")
+    uses_p = bool(conds & {2, 6, 7, 8, 11, 12}) or bool(effs & {6, 10, 13, 15, 20}) or 1 in sk.get("inv", []) or sk.get("fork_all")
     prob.set_initial_value(em.FluentExp(b), em.Bool(bool(ctx.choice("b0", 2)) if uses_b else False))
     for o in objs:
         prob.set_initial_value(em.FluentExp(p, [em.ObjectExp(o)]), em.Bool(bool(ctx.choice(f"p0_{o.name}", 2)) if uses_p else False))
